@@ -23,7 +23,7 @@ from . import stubs
 
 KINDS = ['xml', 'render', 'logits', 'alto', 'lines']
 FLAG = {'xml': '--output-xml-path', 'render': '--output-render-path', 'logits': '--output-logit-path',
-        'alto': '--output-alto-path', 'lines': '--output-line-path'}
+        'alto': '--output-alto-path', 'lines': '--output-line-path', 'lmdb': '--output-line-path'}     # 'lmdb': line crops into an LMDB (path contains 'lmdb')
 PAGES = ['p1', 'a.xml.b', 'c.d']
 
 
@@ -97,7 +97,7 @@ class Bench:
         return os.path.join(self.root, 'o_' + k)
 
     def clean(self):
-        for k in KINDS:
+        for k in KINDS + ['lmdb']:
             shutil.rmtree(self.outdir(k), ignore_errors=True)
 
     def run(self, kinds, skip=True, kill_at=None, process_count=None):
@@ -146,9 +146,24 @@ class Bench:
         self.processed = re.findall(r'^Processing (.+)$', p.stdout, re.M)
         return 'ok' if p.returncode == 0 else 'exit:%s' % p.returncode
 
+    def _lmdb_records(self):
+        import lmdb
+        d = self.outdir('lmdb')
+        if not os.path.isdir(d):
+            return {}
+        env = lmdb.open(d, readonly=True, lock=False)
+        try:
+            with env.begin() as txn:
+                return {k.decode(): bytes(v) for k, v in txn.cursor()}
+        finally:
+            env.close()
+
     def listing(self, kinds):
         out = {}
         for k in kinds:
+            if k == 'lmdb':
+                out[k] = sorted(self._lmdb_records())
+                continue
             d = self.outdir(k)
             out[k] = sorted(os.listdir(d)) if os.path.isdir(d) else []
         return out
@@ -156,6 +171,10 @@ class Bench:
     def contents(self, kinds):
         out = {}
         for k in kinds:
+            if k == 'lmdb':
+                for name, data in self._lmdb_records().items():
+                    out['lmdb/' + name] = data
+                continue
             d = self.outdir(k)
             for f in (sorted(os.listdir(d)) if os.path.isdir(d) else []):
                 data = self._open(os.path.join(d, f), 'rb').read()
@@ -369,6 +388,7 @@ def run(ctx):
                 ctx.hist.append((kinds, hist, [t[1] for t in trace], lst))
     parallel_resume(ctx)
     empty_page_resume(ctx)
+    lmdb_resume(ctx)
     correspond(ctx)
 
 
@@ -450,6 +470,47 @@ def empty_page_resume(ctx):
                     ctx.violation('content-differs:empty-page', 'outputs differ from those of an uninterrupted run', inp)
                 ctx.nontriv(inp)
             ctx.count('empty_page_configs')
+
+
+def lmdb_resume(ctx):
+    """Line crops written into an LMDB (--output-line-path .../lmdb): killed between any two file writes and resumed, the database
+    holds the crops of every transcribed line of every page, as after an uninterrupted run."""
+    rng = ctx.rng
+    try:
+        import lmdb  # noqa: F401
+    except ImportError:
+        ctx.notes.append('lmdb not installed: LMDB line-crop output not exercised')
+        return
+    with Bench(ctx) as b:
+        for kinds in ([['xml', 'logits', 'lmdb']] if ctx.quick() else [['xml', 'logits', 'lmdb'], ['alto', 'lmdb'], KINDS[:4] + ['lmdb']]):
+            b.clean()
+            r = b.run(kinds, skip=False)
+            inp0 = dict(kinds=kinds, pages=PAGES, line_crops='LMDB')
+            ctx.evaluations += 1
+            if r != 'ok':
+                ctx.violation('uninterrupted-fails:lmdb', 'uninterrupted run with LMDB line crops ended with %s' % r, inp0)
+                continue
+            ref_list, ref_cont, nwrites = b.listing(kinds), b.contents(kinds), b.inj.count
+            if not ref_list['lmdb']:
+                ctx.notes.append('LMDB reference run wrote no crops (no transcribed lines): skipped')
+                continue
+            for k in (rng.sample(range(1, nwrites + 1), min(4, nwrites)) if ctx.quick() else range(1, nwrites + 1)):
+                b.clean()
+                ctx.evaluations += 1
+                inp = dict(inp0, crash_before_write=[k])
+                b.run(kinds, skip=True, kill_at=k)
+                res = b.run(kinds, skip=True)
+                if res != 'ok':
+                    ctx.violation('final-run:%s' % res, 'final uninterrupted resume ended with %s' % res, inp)
+                    continue
+                lst = b.listing(kinds)
+                if lst != ref_list:
+                    missing = {kk: sorted(set(ref_list[kk]) - set(lst[kk])) for kk in kinds if set(ref_list[kk]) - set(lst[kk])}
+                    ctx.violation('incomplete-after-resume:lmdb', 'after resuming, requested outputs are missing (line crops in an LMDB)', inp, missing)
+                elif any(b.contents(kinds).get(kk) != v for kk, v in ref_cont.items()):
+                    ctx.violation('content-differs:lmdb', 'outputs differ from those of an uninterrupted run (line crops in an LMDB)', inp)
+                ctx.nontriv(inp)
+            ctx.count('lmdb_configs')
 
 
 def correspond(ctx):
